@@ -60,6 +60,9 @@ def build_tools(need):
             elif tool == "esbuild-race":
                 cmd = ["go", "build", "-race", "-tags", "verif", "-o", os.path.join(BIN, "esbuild-race"), "./cmd/esbuild"]
                 cwd = REPO
+            elif tool.endswith("-race"):
+                cmd = ["go", "build", "-race", "-tags", "verif", "-o", os.path.join(BIN, tool), "./cmd/" + tool[:-5]]
+                cwd = harness
             else:
                 cmd = ["go", "build", "-tags", "verif", "-o", os.path.join(BIN, tool), "./cmd/" + tool]
                 cwd = harness
@@ -394,6 +397,13 @@ def main(argv):
                     # C16 is crash freedom: an input on which the real code panics IS a failing input
                     for d in c["disagreements"]:
                         if str(d.get("implementation", "")).startswith("PANIC"):
+                            first, concrete = d, True
+                            break
+                if prop == "C20":
+                    # a recorded real history that admits no linearisation (e.g. Cancel returned while the build
+                    # it saw was still running) is a concrete failing history
+                    for d in c["disagreements"]:
+                        if str(d.get("implementation", "")).startswith("NO-LINEARISATION"):
                             first, concrete = d, True
                             break
                 broken.append({"kind": "correspondence", "name": c["kernel"], "detail": "%d of %d cases disagree" % (c["disagreement_count"], c["cases"]), "first": first, "concrete": concrete})
